@@ -210,7 +210,7 @@ def one_dir(ctx, res, rng, d):
 
 def body(ctx: C.Ctx, proof: C.ProofStatus) -> C.Result:
 
-    res, rets = C.parallel_jobs(ctx, ctx.scale(12, 160), one_dir)
+    res, rets = C.parallel_jobs(ctx, ctx.scale(12, 90), one_dir)
     model_reqs = [q for r in rets if r for q in r]
     if proof.driver_ok and model_reqs:
         for (q, want), m in zip(model_reqs, C.model_batch([q for q, _ in model_reqs])):
